@@ -1,0 +1,27 @@
+//go:build verif
+
+package rsynccmd
+
+import (
+	"net"
+
+	"github.com/gokrazy/rsync/internal/restrict"
+	"github.com/gokrazy/rsync/internal/simhook"
+	"github.com/landlock-lsm/go-landlock/landlock"
+)
+
+// VerifSetSeed pins the session checksum seed (simulation harness only).
+func VerifSetSeed(f func(int32) int32) { simhook.SeedFunc = f }
+
+// VerifSetListeners makes the daemon serve on the given listeners instead of
+// opening sockets (simulation harness only).
+func VerifSetListeners(f func([]net.Listener) []net.Listener) { simhook.ListenersFunc = f }
+
+// VerifRelaxLandlock makes the daemon's landlock restriction a no-op for the
+// whole file system: landlock is process-wide and irreversible, and the
+// simulation runs many daemons in one worker process.
+func VerifRelaxLandlock() {
+	restrict.ExtraHook = func() []landlock.Rule {
+		return []landlock.Rule{landlock.RWDirs("/").WithRefer()}
+	}
+}
